@@ -44,6 +44,7 @@ CONTRACTS = {
         # refused without side effect: out of range or a self loop
         'raises': {'ValueError': 'not (1 <= u and u <= self.n and 1 <= v and v <= self.n and u != v)'},
         'ensures_on_raise': UNCHANGED,
+        'modifies': ['self.adjlist', 'self.edgeset', 'self.m', 'self.idx'],      # frame used at call sites
         'ghost_code': [
             ('self.adjlist[u].insert(pos, v)',
              'self.idx = lam2(lambda x, w: ite(x == u and w == v, pos, ite(x == u, self.idx[x, w] + ite(self.idx[x, w] >= pos, 1, 0), self.idx[x, w])))'),
@@ -147,6 +148,7 @@ CONTRACTS.update({
         'params': {'self': 'obj:DirectedGraphRep', 'src': 'int', 'dest': 'int'},
         'raises': {'ValueError': 'not (1 <= src and src <= self.n and 1 <= dest and dest <= self.n)'},
         'ensures_on_raise': D_UNCHANGED,
+        'modifies': ['self.pred', 'self.succ', 'self.edgeset', 'self.m', 'self.idxp', 'self.idxs', 'self.still_a_dag'],
         'ghost_code': [
             ('self.pred[dest].insert(pos, src)',
              'self.idxp = lam2(lambda x, w: ite(x == dest and w == src, pos, ite(x == dest, self.idxp[x, w] + ite(self.idxp[x, w] >= pos, 1, 0), self.idxp[x, w])))'),
@@ -217,6 +219,7 @@ CONTRACTS.update({
         'params': {'self': 'obj:BipartiteGraphRep', 'u': 'int', 'v': 'int'},
         'raises': {'ValueError': 'not (1 <= u and u <= self.lorder and 1 <= v and v <= self.rorder)'},
         'ensures_on_raise': B_UNCHANGED,
+        'modifies': ['self.ladj', 'self.radj', 'self.edgeset', 'self.idxl', 'self.idxr'],
         'ghost_code': [
             ('self.ladj[u].insert(pv, v)',
              'self.idxl = lam2(lambda x, w: ite(x == u and w == v, pv, ite(x == u, self.idxl[x, w] + ite(self.idxl[x, w] >= pv, 1, 0), self.idxl[x, w])))'),
@@ -227,6 +230,7 @@ CONTRACTS.update({
             'self.lorder == old(self.lorder)', 'self.rorder == old(self.rorder)',
             'forall(lambda x, y: ((x, y) in self.edgeset) == (((x, y) in old(self.edgeset)) or (x == u and y == v)))',
             'implies((u, v) in old(self.edgeset), self.ladj == old(self.ladj) and self.radj == old(self.radj) and self.edgeset == old(self.edgeset))',
+            'card2(self.edgeset) == card2(old(self.edgeset)) + ite((u, v) in old(self.edgeset), 0, 1)',
         ] + B_INV,
     },
     (G, 'BipartiteGraphRep.number_of_edges'): {
